@@ -4,6 +4,8 @@ Import ListNotations.
 From FV.C11 Require Import Model Entry Proofs BrickModel ProofsBrick.
 From FV.C11.gen Require Import Kernels Brick.
 Open Scope R_scope.
+(* no sentence of this file may hold the shared Coq build lock for long *)
+Set Default Timeout 240.
 
 Definition cell_points (dx dy dz : R) (a b c : Z) (row : list (Z * Z * Z)) : list (v3 R) :=
   map (fun d => match d with (da, db, dc) =>
